@@ -124,7 +124,9 @@ def parseDHT : Nat → List Nat → List (Option Table) → Option (List (Option
 def jllSOF3 (d : Dec) (data : List Nat) : Option Dec :=
   match data with
   | p :: hh :: hl :: wh :: wl :: n :: _ =>
-    if p < 2 ∨ p > 16 then none
+    -- since fix 72b8b5a: `if d.components != 0 { return ErrInvalidSOF }` — a second frame header is rejected
+    if d.ncomp > 0 then none
+    else if p < 2 ∨ p > 16 then none
     else
       let h := hh * 256 + hl
       let w := wh * 256 + wl
@@ -145,7 +147,7 @@ def sv1SOF3 (d : Dec) (data : List Nat) : Option Dec :=
   match data with
   | p :: hh :: hl :: wh :: wl :: n :: rest =>
     -- since fix 7825a71: `if len(d.components) > 0 { return ErrInvalidSOF }` — a second frame header is
-    -- rejected (jpeg/lossless was not changed: its parseSOF3 overwrites the fields, see `jllSOF3`)
+    -- rejected (jpeg/lossless got the same guard in fix 72b8b5a, see `jllSOF3`)
     if d.ncomp > 0 then none
     else if p < 2 ∨ p > 16 then none
     else
